@@ -624,8 +624,6 @@ def to_coq(case, obs):
     chans = case['channels']
     src = g_src(case['tree'], chans)
     if case['kind'] == 'run':
-        if _has(case['tree'], lambda x: x['t'] == 'rep' and x['n'] >= 2):
-            _GUARD_TODO.setdefault(vlib.canonical_hash(case), src)
         return '(CRun %s %d%%positive %s %s %s %s %s)' % (
             vlib.gnat(len(chans)), fuel_of(case, obs), src, gbool(case.get('exact', True)), g_iobs(obs),
             g_steps(obs['dflt']), gQ(F(obs['dflt_total'])))
@@ -717,30 +715,6 @@ def _reachable_holds(t, live=True):
         yield from _reachable_holds(t['body'], live)
 
 
-_GUARD_CACHE = {}
-_GUARD_TODO = {}      # canonical hash -> Gallina source term, filled by to_coq (all `run` cases with a repetition >= 2)
-
-
-def _rep_unstable(case):
-    """ghost flag of the model: some non-unrolled repetition (count >= 2) has a body whose translation depends on the
-    register state at its entry (evaluated by Coq on the model of the unchanged translator; one batch per run)."""
-    import re
-    key = vlib.canonical_hash(case)
-    if key not in _GUARD_CACHE:
-        _GUARD_TODO.setdefault(key, g_src(case['tree'], case['channels']))
-        todo = [(k, t) for k, t in _GUARD_TODO.items() if k not in _GUARD_CACHE]
-        wd = os.path.join(vlib.CASES, 'C17.guard.%d' % os.getpid())
-        for start in range(0, len(todo), 200):
-            chunk = todo[start:start + 200]
-            out = vlib.coq_eval(wd, ['QV.C17.Model'], '[' + '; '.join('rep_stable_src %s' % t for _, t in chunk) + ']')
-            vals = re.findall(r'true|false', out)
-            assert len(vals) == len(chunk), out[:200]
-            for (k, _), v in zip(chunk, vals):
-                _GUARD_CACHE[k] = (v == 'false')
-        vlib.rmtree(wd)
-    return _GUARD_CACHE[key]
-
-
 def classify(case, obs):
     tree = case['tree']
     if 'crash' in obs or 'hang' in obs:
@@ -754,8 +728,6 @@ def classify(case, obs):
         return 'dep-key-shared-across-depths'
     if _has(tree, lambda x: x['t'] == 'remap' and _has(x['body'], lambda y: y['t'] == 'rep' and y['n'] > 0)):
         return 'index-rebinding-under-repetition'
-    if 'err' not in obs and _has(tree, lambda x: x['t'] == 'rep' and x['n'] >= 2) and _rep_unstable(case):
-        return 'repetition-entry-state'
     return None
 
 
